@@ -183,7 +183,10 @@ def makeIter (v : Value) : VMM (Option Obj) := do
   match v with
   | .arr r | .imarr r => do
       let es ← hp (arrElems r)
-      pure (some (.arrIt r 0 es.length 0))        -- header reference and the length at creation
+      let st ← match ← hp (getObj r) with
+        | .arr st _ _ => pure st
+        | _ => pure 0
+      pure (some (.arrIt r st es.length 0))       -- header reference, its store and the length at creation
   | .map r | .immap r => do
       let kvs ← hp (mapEntries r)
       if kvs.length > 1 then
@@ -205,13 +208,17 @@ def iterOut {α} : VMM α := goPanic "runtime error: index out of range"
 
 def iterGet (r : Nat) (wantKey : Bool) : VMM Value := do
   match ← hp (getObj r) with
-  | .arrIt h _ len i =>
+  | .arrIt h st0 len i =>
     if wantKey then pure (Value.int (Int.ofNat i - 1))
     else do
       let es ← hp (arrElems h)
       -- the iterator holds the slice it started with: if the array was restructured meanwhile
-      -- (splice), what it sees depends on hidden capacity
-      if es.length != len then
+      -- (splice: another length, or another store of the same length), what it sees depends on hidden
+      -- capacity
+      let sameStore ← match ← hp (getObj h) with
+        | .arr st _ _ => pure (st == st0)
+        | _ => pure false
+      if es.length != len || !sameStore then
         hp (throw (Err.excluded "array restructured during for-in over it (hidden capacity)"))
       if i == 0 || i > len then iterOut else pure (es.getD (i - 1) .undef)
   | .listIt _ items i =>
